@@ -556,6 +556,17 @@ def run(res, quick, seed, target):
             for m in msgs:
                 for sg in sigs:
                     secp_items.append((name, k, m, sg))
+        # digests with leading zero bytes: a valid signature for 00..00 || tail must verify for the 32-byte digest
+        # and must be rejected when the leading zero bytes are dropped (a shorter digest is not the same digest)
+        for zeros in (1, 2, 8, 16):
+            z0 = z >> (8 * zeros)
+            m0 = z0.to_bytes(32, "big")
+            r0, s0 = cv.sign(d, z0, 0x0F0E0D0C0B0A09080706050403020100FFEEDDCCBBAA99887766554433221101 % cv.n)
+            if s0 > cv.n // 2:
+                s0 = cv.n - s0  # low-s form, accepted by both operators
+            sig0 = r0.to_bytes(32, "big") + s0.to_bytes(32, "big")
+            for m in (m0, m0[zeros:], m0[1:], b"\x00" + m0, m0[zeros:] + bytes(zeros)):
+                secp_items.append((name, cv.encode(Q), m, sig0))
     jobs += [("secp", ch) for ch in chunk(secp_items, 150)]
     # ----- BLS group law
     G = bls.compress1(bls.g1)
